@@ -47,11 +47,11 @@ def variant(name):
         base = T.get(bname)
         s = base.rp.seeds
         if v == "M'":
-            inst = T.reseeded(base, M=s[0] + b"'")
+            inst = T.reseeded(base, M=T.alt_seed(base, s[0]))
         elif v == "N'":
-            inst = T.reseeded(base, N=s[1] + b"'")
+            inst = T.reseeded(base, N=T.alt_seed(base, s[1]))
         elif v == "S'":
-            inst = T.reseeded(base, S=s[2] + b"'")
+            inst = T.reseeded(base, S=T.alt_seed(base, s[2]))
         else:
             inst = T.reseeded(base, M=s[1], N=s[0])
         inst.name = name
